@@ -5,7 +5,10 @@ From KV.Frame Require Import Wire Frame WireProofs.
 Import ListNotations.
 Local Open Scope Z_scope.
 
-Ltac Zify.zify_post_hook ::= Z.div_mod_to_equations.
+(* WordLemmas installs Z.div_mod_to_equations as zify hook; it drags every Section hypothesis into
+   each lia proof term.  Nothing here needs div/mod reasoning. *)
+Ltac Zify.zify_post_hook ::= idtac.
+
 
 (* ---------------------------------------------------------------- small list facts *)
 Lemma blen_len_nat (b : bytes) (n : nat) : blen b = Z.of_nat n -> length b = n.
